@@ -1245,3 +1245,22 @@ def prune_nested(t, known=None, depth=0, known_not=None):
         # on the returned value the conditions are already spelled out by the conditionals rebuilt around the early exits
         return prune_nested(t.a[0], known, depth + 1, known_not)
     return t
+
+
+def distribute_call(t, rounds=3):
+    """`f(.., match S {.. => x}, ..)` is `match S {.. => f(.., x, ..)}` (likewise for if): a result constructor applied once
+    around a conditional is moved inside its branches."""
+    for _ in range(rounds):
+        if isinstance(t, Tm) and t.k == "call" and len(t.a) >= 2:
+            idx = [i for i, a_ in enumerate(t.a[1:], 1) if isinstance(a_, Tm) and a_.k in ("match", "if")]
+            if len(idx) == 1:
+                i = idx[0]
+                m_ = t.a[i]
+                mk = lambda b_: Tm("call", t.a[:i] + (b_,) + t.a[i + 1:], t.n)
+                if m_.k == "match":
+                    t = Tm("match", (m_.a[0], tuple((p_, g_, mk(b_)) for p_, g_, b_ in m_.a[1])), m_.n)
+                else:
+                    t = Tm("if", (m_.a[0], mk(m_.a[1]), mk(m_.a[2])), m_.n)
+                continue
+        break
+    return t
